@@ -17,9 +17,16 @@
        is given, the loader's later answers are derived from it ([build_views]): view k has
        the call-site names the passes over views 0..k-1 left in the files; the first load
        ignores derived.gen.go, so there every call with ARGS is undefined.
-       A file is (CALL...) or (broken CALL...) for a file that does not parse. *)
+       A file is (CALL...) or (broken CALL...) for a file that does not parse.
+   (invocation (A D) CWD BEFORE PKGS 0 AFTER)
+       one successful goderive run over several packages, started in directory CWD (directories
+       are numbers): BEFORE / AFTER = the directories that hold a derived.gen.go before / after
+       (ascending), PKGS = the loaded packages in processing order, each (DIR FILES CONTENT):
+       FILES = 0 for a package the loader reports without source files, CONTENT = something is
+       generated for it.  Against [inv_run] of Rewrite/Invocation.v (which places the
+       operations of [run] in the tree). *)
 From Verif Require Import Base Sexp.
-From Verif.Rewrite Require Import Files Tokens Names Effects.
+From Verif.Rewrite Require Import Files Tokens Names Effects Invocation.
 Open Scope string_scope.
 
 Definition get_tok (e : sexp) : option token :=
@@ -317,6 +324,54 @@ Definition eval_effects (fl : flags) (dbefore : bool) (given : list (pkg * list 
     end
   end.
 
+(* ---------- invocation ---------- *)
+
+Definition inv_name : name := [100; 69]%N.
+
+Definition inv_view (files content : bool) : pkg :=
+  let c := {| c_name := inv_name; c_pos := 0; c_ty := 0; c_base := []; c_valid := true;
+              c_undef := false; c_genok := true |} in
+  {| p_loads := true; p_plugins := [inv_name]; p_reserved := [];
+     p_files := if files
+                then [{| f_path := User 0; f_toks := []; f_calls := if content then [c] else [];
+                         f_parses := true |}]
+                else [] |}.
+
+Definition get_ipkg (e : sexp) : option ipkg :=
+  match e with
+  | L [d; f; c] =>
+      match get_nat d, get_bool f, get_bool c with
+      | Some d', Some f', Some c' => Some (d', [inv_view f' c'])
+      | _, _, _ => None
+      end
+  | _ => None
+  end.
+
+Definition mem_nat (x : nat) (l : list nat) : bool := existsb (Nat.eqb x) l.
+
+Definition derived_dirs_after (before : list nat) (ops : list (nat * op)) : list nat :=
+  fold_left (fun acc e => match snd e with
+                          | OCreate Derived _ => insert_nat (fst e) acc
+                          | ORemove Derived => filter (fun y => negb (Nat.eqb (fst e) y)) acc
+                          | _ => acc
+                          end) ops before.
+
+Definition eval_invocation (fl : flags) (cwd : nat) (before : list nat) (pkgs : list ipkg) (after : list nat) : verdict :=
+  let ops := inv_run true Trunc (fun _ => []) (fun _ => []) true cwd fl pkgs in
+  let m_after := derived_dirs_after before ops in
+  let named := map fst pkgs in
+  (* the property: a directory that is not named on the command line keeps its derived.gen.go
+     (or its absence); the snapshot of the harness sees to every other file *)
+  let spec := forallb (fun d => mem_nat d named || Bool.eqb (mem_nat d before) (mem_nat d after))
+                      (before ++ after) in
+  let sourceless := existsb (fun e => match pkg_dir (fst e) (snd e) with None => true | Some _ => false end) pkgs in
+  {| v_known := true; v_model_ok := nats_eqb m_after after; v_spec_ok := spec; v_guard := true;
+     v_model := L (map of_nat m_after);
+     v_tag := "invocation/cwd-" ++ (if mem_nat cwd named then "named" else "not-named")
+              ++ (if mem_nat cwd before then "-with-derived" else "")
+              ++ (if sourceless then "/package-without-sources" else "/all-with-sources")
+              ++ (match pkgs with [_] => "/1" | _ => "/n" end) |}.
+
 Definition eval10 (e : sexp) : verdict :=
   match e with
   | L [Sym k; old; expected; base; sg; otoks; observed] =>
@@ -339,6 +394,25 @@ Definition eval10 (e : sexp) : verdict :=
             end
         | _, _, _, _, _ => bad_line
         end
+      else if String.eqb k "invocation" then
+        match old, get_nat expected, base, sg, observed with
+        | L [a; d], Some cwd, L bf, L ps, L af =>
+            match get_bool a, get_bool d, map_opt get_nat bf, map_opt get_ipkg ps, map_opt get_nat af with
+            | Some a', Some d', Some bf', Some ps', Some af' =>
+                eval_invocation {| autoname := a'; dedup := d' |} cwd bf' ps' af'
+            | _, _, _, _, _ => bad_line
+            end
+        | _, _, _, _, _ => bad_line
+        end
       else bad_line
   | _ => bad_line
   end.
+
+(* the invocation of seed C10-m14's demo: goderive started in directory 0 (which holds a
+   derived.gen.go) on directory 1 (an external test package: files, nothing generated; the
+   package itself: no files): directory 0 keeps its file, directory 1 loses it *)
+Example invocation_example :
+  derived_dirs_after [0; 1] (inv_run true Trunc (fun _ => []) (fun _ => []) true 0 {| autoname := false; dedup := false |}
+                                     [(1, [inv_view true false]); (1, [inv_view false false]); (2, [inv_view true true])])
+  = [0; 2].
+Proof. vm_compute. reflexivity. Qed.
